@@ -5,16 +5,21 @@ from vlib.core import HarnessError
 
 LEVEL = "exploration"
 RULE = (
-    "Hypothesis draws maximum_associations M in 1..4, N in 1..3M requestors (raw or pynetdicom) with generated virtual start times (many equal, so "
-    "negotiations overlap), hold times and endings (release / abort / drop the connection), and a schedule (fifo/random/PCT + preemptions) "
-    "interleaving the N negotiation threads. Oracle: replaying the acceptor's EVT_ESTABLISHED / EVT_RELEASED / EVT_ABORTED notifications in order, "
-    "the number of simultaneously established associations never exceeds M; every A-ASSOCIATE-RJ on the wire is (2,3,2) = transient, "
-    "presentation-related, local-limit-exceeded; in 'sequential' cases (arrivals 1.5 virtual seconds apart, each association held to the end) "
-    "request k is accepted iff k <= M. Non-trivial = >=2 connections are in negotiation (between EVT_CONN_OPEN and established/rejected) at the same point of the event history while established + negotiating > M."
+    "Hypothesis draws maximum_associations M in 1..4, the number of association servers (1 or 2, on different virtual ports) the ONE acceptor AE runs, "
+    "N in 1..3M requestors (raw or pynetdicom), each connecting to one of the AE's servers (random or alternating spread, so that each server may stay "
+    "at or below M while the AE total exceeds it), with generated virtual start times (many equal, so negotiations overlap), hold times and endings "
+    "(release / abort / drop the connection), and a schedule (fifo/random/PCT + preemptions) interleaving the N negotiation threads. Oracle (per "
+    "application entity, i.e. over the associations of ALL its servers): replaying the acceptor AE's EVT_ESTABLISHED / EVT_RELEASED / EVT_ABORTED "
+    "notifications in order, the number of simultaneously established associations never exceeds M; every A-ASSOCIATE-RJ on the wire is (2,3,2) = "
+    "transient, presentation-related, local-limit-exceeded; in 'sequential' cases (arrivals 1.5 virtual seconds apart, each association held to the "
+    "end) request k (in arrival order, whatever server it goes to) is accepted iff k <= M. Non-trivial = >=2 connections are in negotiation (between "
+    "EVT_CONN_OPEN and established/rejected) at the same point of the event history while established + negotiating > M, or (class multi-server-over) "
+    "the AE runs 2 servers, both receive requests and N > M."
 )
 ASSUMPTIONS = [
-    "E4 substitution table; ae.active_associations sees the scheduler's view of thread liveness (threading.enumerate substituted in pynetdicom.ae)",
+    "E4 substitution table; ae.active_associations sees the scheduler's view of thread liveness (threading.enumerate substituted in pynetdicom.ae and pynetdicom.transport)",
     "'established' interval of an association = from its EVT_ESTABLISHED to its EVT_RELEASED/EVT_ABORTED notification",
+    "maximum_associations is a setting of the application entity (AE.maximum_associations docs: 'the maximum number of simultaneous associations' of the AE), not of one listen socket",
 ]
 SHARDS = {"quick": 1, "thorough": 16}
 
@@ -22,16 +27,18 @@ SHARDS = {"quick": 1, "thorough": 16}
 def check_limit(ctx, case):
     M = case["max"]
     reqs = []
+    servers = case.get("servers", 1)
     for r in case["requestors"]:
+        port = SC.PORT + (r.get("server", 0) % servers)
         if r["kind"] == "raw":
             end = {"release": [["send", R.ref_encode(R.ReleaseRQ())], ["recv_until_close", 4], ["close"]],
                    "abort": [["send", R.ref_encode(R.Abort(0, 0))], ["close"]], "drop": [["close"]]}[r["end"]]
-            reqs.append({"kind": "raw", "start": r["start"], "script": [["send", R.ref_encode(SC.RAW_RQ)], ["recv_pdu", 4], ["sleep", r["hold"]]] + end})
+            reqs.append({"kind": "raw", "start": r["start"], "port": port, "script": [["send", R.ref_encode(SC.RAW_RQ)], ["recv_pdu", 4], ["sleep", r["hold"]]] + end})
         else:
             end = {"release": [["release"]], "abort": [["abort"]], "drop": [["abort"]]}[r["end"]]
-            reqs.append({"kind": "pynetdicom", "start": r["start"], "script": [["associate"], ["sleep", r["hold"]]] + end})
+            reqs.append({"kind": "pynetdicom", "start": r["start"], "port": port, "script": [["associate"], ["sleep", r["hold"]]] + end})
     sc = {"timeouts": {"acse": 3, "dimse": 3, "network": 60}, "max_steps": 60000, "quantum": 0.1,
-          "acceptor": {"kind": "pynetdicom", "handlers": {}, "max_assoc": M}, "requestors": reqs, "schedule": case["schedule"]}
+          "acceptor": {"kind": "pynetdicom", "handlers": {}, "max_assoc": M, "servers": servers}, "requestors": reqs, "schedule": case["schedule"]}
     out = SC.run(sc)
     for p in out["raw"]:
         if p.error:
@@ -55,7 +62,10 @@ def check_limit(ctx, case):
         if len(negotiating) >= 2 and cur + len(negotiating) > M:
             overlap_over = True
     N = len(reqs)
-    ctx.note(case, nontrivial=overlap_over, classes=[f"M={M}", f"N>M" if N > M else "N<=M", case["mode"], case["schedule"]["policy"], out["how"]] + (["overlap-over-limit"] if overlap_over else []))
+    used = {r.get("server", 0) % servers for r in case["requestors"]}
+    multi_over = len(used) > 1 and N > M
+    ctx.note(case, nontrivial=overlap_over or multi_over, classes=[f"M={M}", f"N>M" if N > M else "N<=M", case["mode"], case["schedule"]["policy"], out["how"], f"servers={servers}", f"servers-used={len(used)}"]
+             + (["overlap-over-limit"] if overlap_over else []) + (["multi-server-over"] if multi_over else []))
     if out["how"] == "budget":
         ctx.inconclusive += 1
         return
@@ -102,8 +112,11 @@ def strategy(ctx):
         M = draw(st.integers(1, 4))
         mode = draw(st.sampled_from(["burst", "burst", "mixed", "sequential"]))
         N = draw(st.integers(max(1, M - 1), 3 * M if mode != "sequential" else min(M + 2, 6)))
+        servers = draw(st.sampled_from([1, 2, 2]))
+        spread = draw(st.sampled_from(["random", "alternate", "alternate"]))
         rs = []
         for i in range(N):
+            srv = 0 if servers == 1 else (i % servers if spread == "alternate" else draw(st.integers(0, servers - 1)))
             if mode == "burst":
                 start = draw(st.sampled_from([0.0, 0.0, 0.0, 0.1]))
                 hold = draw(st.sampled_from([0.0, 0.2, 1.0, 2.0]))
@@ -113,8 +126,8 @@ def strategy(ctx):
             else:
                 start = 1.5 * i
                 hold = 1.5 * (N - i) + 1.0
-            rs.append({"kind": draw(st.sampled_from(["raw", "raw", "pynetdicom"])), "start": start, "hold": hold, "end": draw(st.sampled_from(["release", "abort", "drop"]))})
-        return {"max": M, "mode": mode, "requestors": rs,
+            rs.append({"kind": draw(st.sampled_from(["raw", "raw", "pynetdicom"])), "start": start, "hold": hold, "end": draw(st.sampled_from(["release", "abort", "drop"])), "server": srv})
+        return {"max": M, "mode": mode, "servers": servers, "requestors": rs,
                 "schedule": {"policy": draw(st.sampled_from(["fifo", "random", "random", "pct"])), "seed": draw(st.integers(0, 10**6)),
                              "preemptions": [list(p) for p in draw(st.lists(st.tuples(st.integers(0, 3000), st.integers(0, 8)), max_size=8))], "nudges": []}}
 
